@@ -17,9 +17,34 @@ PUBV = {n: v for n, v in ALL.items() if n.endswith("pub")}
 MN = "legal winner thank year wave sausage worth useful legal winner thank yellow"
 
 
+def _collision_wallets(rng, tier):
+    """watch-only wallets whose ROOT public keys share the 4-byte fingerprint (corpus common.fp_pairs) or are the same
+    key under another chain code / depth, on the same network, asked for the same sub-paths and addresses back to
+    back in one process; every answer is compared with the full wallet built from the matching private key"""
+    from .c09 import point, sec_c
+    pairs = common.fp_pairs()
+    for ka, kb in (pairs[:2] if tier == "quick" else pairs):
+        ch1, ch2 = (bytes(rng.getrandbits(8) for _ in range(32)) for _ in range(2))
+        t = rng.choice("01")
+        vprv, vpub = (0x04358394, 0x043587CF) if t == "1" else (0x0488ADE4, 0x0488B21E)
+        sibs = []
+        for k, ch in ((ka, ch1), (kb, ch1), (ka, ch2), (ka, ch1)):
+            x, y = point(k)
+            full = "xkey:" + sx(common.xkey_string(vprv, 0, bytes(4), 0, ch, b"\x00" + k.to_bytes(32, "big")))
+            wo = "xkey:" + sx(common.xkey_string(vpub, 0, bytes(4), 0, ch, sec_c(x, y)))
+            sibs.append((full, wo))
+        for sub in ([0, 1], [rng.choice([0, 7, 2 ** 31 - 1])], [1, 2, 3]):
+            sp = "/".join(["M"] + [str(i) for i in sub])
+            for full, wo in sibs:
+                meta = "%s|%s|%s" % (full, impl.lst(str, []), impl.lst(str, sub))
+                yield "w_bypath %s %s #%s" % (wo, sx(sp), meta), "fp-collision-wallets"
+                yield "w_addr %s %s %s #%s" % (wo, sx(sp), rng.choice(KINDS), meta), "fp-collision-wallets-addr"
+
+
 def cases(rng, tier):
     n = 10 if tier == "quick" else 400
     yield from _hist_cases(rng, tier)
+    yield from _collision_wallets(rng, tier)
     # export nodes deep in the tree as well: the depth byte crosses 0x7f/0x80 and approaches 0xff
     deep = [127, 128, 200, 251] if tier == "quick" else [126, 127, 128, 129, 130, 200, 250, 251]
     deep = [rng.choice(deep[:2]), rng.choice(deep[2:])] if tier == "quick" else deep
